@@ -146,7 +146,7 @@ def check(run):
             mask[r.randrange(n)] = False
         specs.append(build(r, "E%d" % k, n - sum(mask), mask))
         k += 1
-    units = [shards.Unit("u_" + s.name.lower(), glue(s, thorough), meta={"enum_src": s.render()}, sig="n=%d,%s" % (len(s.enabled()), s.signature())) for s in specs]
+    units = [shards.Unit("u_" + s.name.lower(), glue(s, thorough), meta={"enum_src": s.render(), "bare_src": s.render_bare()}, sig="n=%d,%s" % (len(s.enabled()), s.signature())) for s in specs]
     run.rule = RULE
     samples = standard_flow(run, units, deps["std"], vmon, profiles=("fast",), tag="c10")
     if thorough:
@@ -159,7 +159,7 @@ def check(run):
             g = glue(ms, False)
             g = _re.sub(r"explore_writes\(m, &t0, &model0, &key, \d+,", "explore_writes(m, &t0, &model0, &key, 2,", g)
             g = _re.sub(r"random_walk\(m, &t0, &model0, &key, \d+\)", "random_walk(m, &t0, &model0, &key, 30)", g)
-            mu.append(shards.Unit("u_m%d" % j, g, meta={"enum_src": ms.render()}, sig="miri"))
+            mu.append(shards.Unit("u_m%d" % j, g, meta={"enum_src": ms.render(), "bare_src": ms.render_bare()}, sig="miri"))
         miri.run_miri(run, mu)
     pick_samples(run, samples, {u.name: u for u in units})
     run.extra["programs"] = len(units)
